@@ -181,7 +181,10 @@ class Repo:
                 self._add_module(rel, src)
         # make helpers / constants / locals that the reference tree does not
         # have transparent (see sa/normalize.py); identity on the reference tree
-        from .normalize import normalize_module, compute_pure_names, compute_tuple_sizes
+        from .normalize import normalize_module, compute_pure_names, compute_tuple_sizes, restore_function_names
+        self.renamed_back = restore_function_names({m.name: m.tree for m in self.modules.values()})
+        from .normalize import restore_return_order
+        self.return_orders = restore_return_order({m.name: m.tree for m in self.modules.values()})
         compute_pure_names([m.tree for m in self.modules.values()])
         compute_tuple_sizes([m.tree for m in self.modules.values()])
         from .normalize import compute_stable_attrs, compute_param_mutation
